@@ -9,10 +9,10 @@ use std::task::{Context, Poll, Waker};
 use tokio::io::{AsyncReadExt, AsyncWriteExt};
 
 pub fn len_of(h: &[u8]) -> usize {
-    if h.is_empty() {
+    if h.is_empty() || h[0] < 0x30 {
         0
     } else {
-        (h[0] % 16) as usize
+        ((h[0] - 0x30) % 80) as usize
     }
 }
 
